@@ -18,6 +18,5 @@ CONSTANTS
   Jobs = {}
   Owner <- OwnD
   AnyTurn = TRUE
-SPECIFICATION XFairSpec
+SPECIFICATION XSpec
 INVARIANTS XTypeOK PendingBound TypeOK RealSafe FindingStrict
-PROPERTIES Completes WakeSeen OpSeen
